@@ -15,8 +15,8 @@ import (
 	"fmt"
 	"os"
 	"slices"
-	"strings"
 
+	rhp2 "go.sia.tech/core/rhp/v2"
 	proto4 "go.sia.tech/core/rhp/v4"
 	"go.sia.tech/core/types"
 	rhp4 "go.sia.tech/coreutils/rhp/v4"
@@ -32,7 +32,10 @@ type checker struct {
 	e     *env
 	cases []string
 	last  *snap // state after the previous attempt
-	reads map[types.Hash256]bool
+	// broken is set when the contract can no longer be brought to a chosen base state (a
+	// violation reported at that point); the remaining enumeration would only pile up
+	// consequences on a contract of unbounded size, so it is skipped.
+	broken bool
 }
 
 // name renders a root as a pool number (or an unknown number) for replay files.
@@ -114,6 +117,14 @@ func (k *checker) mustCommit(a attempt, before snap) (must, mustNot bool) {
 func (k *checker) attempt(a attempt, toCoq bool, phase string) snap {
 	e, res := k.e, k.c.Res
 	before := e.snapshot()
+	if k.broken || len(before.roots) > 96 {
+		if !k.broken {
+			k.broken = true
+			res.Notes = append(res.Notes, fmt.Sprintf("contract grew to %d roots; remaining attempts skipped", len(before.roots)))
+		}
+		res.Count("skipped-after-broken-base-state")
+		return before
+	}
 	if k.last != nil {
 		if r, v, b := sameSnap(*k.last, before); !r || !v || !b {
 			k.fail("state-changed-between-attempts", fmt.Sprintf("roots same=%v revision same=%v balance same=%v although no RPC ran", r, v, b), before, a, nil)
@@ -288,12 +299,19 @@ func (k *checker) coqCase(a attempt, before, after snap, committed bool, ob obse
 			outs = list(ob.listed)
 		}
 	}
-	return fmt.Sprintf("mk_case %d %s %s %s %d %s %s %s", a.Kind, rootsB, args, has, a.Script, out.Bool(committed), list(after.roots), outs)
+	aux := 0
+	if a.Kind == kindRoots && ob.gotResp && ob.proofLen >= 0 {
+		aux = 1 + ob.proofLen
+	}
+	return fmt.Sprintf("mk_case %d %s %s %s %d %s %s %s %d", a.Kind, rootsB, args, has, a.Script, out.Bool(committed), list(after.roots), outs, aux)
 }
 
 // ensure brings the contract to the given roots (pool numbers) with complete RPCs
 // through the real renter functions; these attempts are monitored too.
 func (k *checker) ensure(target []int) {
+	if k.broken {
+		return
+	}
 	want := make([]types.Hash256, len(target))
 	for i, n := range target {
 		want[i] = k.e.pool[n]
@@ -323,8 +341,9 @@ func (k *checker) ensure(target []int) {
 			k.attempt(attempt{Kind: kindAppend, Sectors: target[p:]}, false, "setup")
 		}
 	}
-	if got := k.e.snapshot(); !slices.Equal(got.roots, want) {
-		k.c.Res.Fail("cannot-establish-base-state", fmt.Sprintf("free-all then append did not produce %v but %v", target, k.names(got.roots)), map[string]any{"base": target})
+	if got := k.e.snapshot(); !slices.Equal(got.roots, want) && !k.broken {
+		k.broken = true
+		k.c.Res.Fail("cannot-establish-base-state", fmt.Sprintf("free-all then append (renter API, then raw wire) did not produce %v but %v; remaining attempts skipped", target, k.names(got.roots)), map[string]any{"base": target})
 	}
 }
 
@@ -332,7 +351,7 @@ func (k *checker) ensure(target []int) {
 func (k *checker) readBack(tag string) {
 	e := k.e
 	st := e.snapshot()
-	if len(st.roots) == 0 {
+	if len(st.roots) == 0 || k.broken {
 		return
 	}
 	a := attempt{Kind: kindRoots, Off: 0, Len: uint64(len(st.roots))}
@@ -421,7 +440,7 @@ func runC09(c *hx.Ctx) {
 	}
 
 	r := c.R.Fork()
-	coqBudget := c.Scale(9000, 60000)
+	coqBudget := c.Scale(12000, 60000)
 
 	// (1) every contract size, every index list (any order, duplicates) through the renter API
 	for n := 0; n <= maxSize; n++ {
@@ -519,7 +538,17 @@ func runC09(c *hx.Ctx) {
 				if (off+l)%5 == 4 {
 					script = []int{scriptBadSignature, scriptCloseAfterReq, scriptHalfRequest}[(off+l)%3]
 				}
-				k.attempt(attempt{Kind: kindRoots, Off: uint64(off), Len: uint64(l), Script: script, BadSig: r.Intn(4)}, true, "listing")
+				k.attempt(attempt{Kind: kindRoots, Off: uint64(off), Len: uint64(l), Script: script, BadSig: r.Intn(4), Raw: (off+l)%2 == 0}, true, "listing")
+			}
+		}
+	}
+	// law check for the symbolic range proofs of RHP/Roots.v: as many digests as core's
+	// RangeProofSize says the real proof has hashes, for every range of every size to 20
+	for n := uint64(1); n <= 20; n++ {
+		for off := uint64(0); off < n; off++ {
+			for l := uint64(1); off+l <= n; l++ {
+				k.cases = append(k.cases, fmt.Sprintf("mk_case 4 [] %s [] 0 false [] [] %d", out.NList([]uint64{n, off, l}), 1+rhp2.RangeProofSize(n, off, off+l)))
+				res.Count("law:range-proof-size")
 			}
 		}
 	}
@@ -551,7 +580,6 @@ func runC09(c *hx.Ctx) {
 	k.readBack("at the end")
 	res.CountN("host:revise-calls", e.rec.revises)
 	res.WriteCases("Run.Run_C09", k.cases)
-	_ = strings.Join
 }
 
 // randomAttempt draws the next attempt of a random sequence; target is the contract size the
@@ -615,6 +643,7 @@ func randomAttempt(r *rng.R, size, pool, target int) attempt {
 		if a.Script == scriptCloseAfterResp || a.Script == scriptCloseAfterSig {
 			a.Script = scriptComplete
 		}
+		a.Raw = r.Bool()
 	}
 	return a
 }
